@@ -91,6 +91,7 @@ type Step struct {
 	Faults []Fault `json:"faults,omitempty"`
 	D      int     `json:"d,omitempty"`
 	Cancel int     `json:"cancel,omitempty"` // req: 1 = cancel the caller's context right after return, 2 = before the call
+	LateBody int   `json:"latebody,omitempty"` // req: 1 = read the body only after due background work has finished
 	Par    []Step  `json:"par,omitempty"`    // conc: requests issued concurrently
 	Sched  []int   `json:"sched,omitempty"`  // conc: gate release order (client indices)
 }
